@@ -18,6 +18,7 @@
 //	minmax     x := A; if B < x { x = B } becomes x := min(A, B)
 //	rangeint   for i := 0; i < N; i++ becomes for i := range N
 //	switch-if  a small tagged switch becomes an if / else-if chain
+//	extract-pred  an if condition that reads only the receiver's fields and constants becomes a call of a new one-line predicate method
 //	demorgan   !(a) introduced: a && b becomes !(!(a) || !(b)) for boolean conditions of if statements
 package main
 
@@ -49,6 +50,77 @@ func main() {
 				continue
 			}
 			n := 0
+			var extra []string
+			if mode == "extract-pred" {
+				for _, d := range f.Decls {
+					fd, ok := d.(*ast.FuncDecl)
+					if !ok || fd.Recv == nil || len(fd.Recv.List) != 1 || len(fd.Recv.List[0].Names) != 1 || fd.Body == nil || fd.Recv.List[0].Names[0].Name == "_" {
+						continue
+					}
+					recv := fd.Recv.List[0].Names[0]
+					recvObj := p.TypesInfo.Defs[recv]
+					recvType := types.ExprString(fd.Recv.List[0].Type)
+					if strings.Contains(recvType, "[") { // generic receivers: skip
+						continue
+					}
+					ast.Inspect(fd.Body, func(node ast.Node) bool {
+						if _, isLit := node.(*ast.FuncLit); isLit {
+							return false
+						}
+						is, ok := node.(*ast.IfStmt)
+						if !ok || is.Init != nil {
+							return true
+						}
+						okCond, usesRecv := true, false
+						ast.Inspect(is.Cond, func(e ast.Node) bool {
+							switch x := e.(type) {
+							case *ast.BinaryExpr:
+								if x.Op == token.LAND || x.Op == token.LOR {
+									okCond = false
+								}
+							case *ast.CallExpr:
+								if id, isID := x.Fun.(*ast.Ident); !isID || id.Name != "len" || p.TypesInfo.Uses[id] == nil || p.TypesInfo.Uses[id].Pkg() != nil {
+									okCond = false
+								}
+							case *ast.FuncLit, *ast.TypeAssertExpr, *ast.CompositeLit:
+								okCond = false
+							case *ast.UnaryExpr:
+								if x.Op == token.ARROW || x.Op == token.AND {
+									okCond = false
+								}
+							case *ast.SelectorExpr:
+								// field selections only (no method values); the selected name itself is not inspected
+								if sel := p.TypesInfo.Selections[x]; sel != nil && sel.Kind() != types.FieldVal {
+									okCond = false
+								}
+							case *ast.Ident:
+								obj := p.TypesInfo.Uses[x]
+								switch o := obj.(type) {
+								case *types.Var:
+									if obj == recvObj {
+										usesRecv = true
+									} else if !o.IsField() {
+										okCond = false // a local or a package variable
+									}
+								case *types.Const, *types.Nil, *types.PkgName, *types.Builtin:
+								case nil:
+								default:
+									okCond = false
+								}
+							}
+							return okCond
+						})
+						if !okCond || !usesRecv {
+							return true
+						}
+						name := fmt.Sprintf("vrfPred%d", len(extra)+1)
+						extra = append(extra, fmt.Sprintf("\nfunc (%s %s) %s() bool {\n\treturn %s\n}\n", recv.Name, recvType, name, types.ExprString(is.Cond)))
+						is.Cond = &ast.CallExpr{Fun: &ast.SelectorExpr{X: ast.NewIdent(recv.Name), Sel: ast.NewIdent(name)}}
+						n++
+						return true
+					})
+				}
+			}
 			if mode == "rename-locals" {
 				// every local variable, parameter and named result gets a new name (suffix Q)
 				ren := func(id *ast.Ident, obj types.Object) {
@@ -537,6 +609,9 @@ func main() {
 			var buf bytes.Buffer
 			if err := format.Node(&buf, p.Fset, f); err != nil {
 				panic(err)
+			}
+			for _, e := range extra {
+				buf.WriteString(e)
 			}
 			if err := os.WriteFile(name, buf.Bytes(), 0o644); err != nil {
 				panic(err)
